@@ -45,7 +45,7 @@ ANCHORS = ["txtorcon.torcontrolprotocol:TorControlProtocol._handle_notify",
            "txtorcon.torcontrolprotocol:TorControlProtocol._broadcast_response",
            "txtorcon.torcontrolprotocol:TorControlProtocol._start_command"]
 FLOORS = {"quick": {"evaluations": 1500, "events_completed": 4000, "listener_calls": 3000,
-                    "in_delivery_operations": 300, "setevents_compared": 1500, "listeners_registered_as_bound_methods": 1000,
+                    "in_delivery_operations": 300, "setevents_compared": 1500, "listeners_registered_as_bound_methods": 1000, "setevents_refused_by_tor": 100, "equal_but_distinct_listener_pairs": 300,
                     "reach:txtorcon.torcontrolprotocol:Event.got_update": 2000},
           "thorough": {"evaluations": 40000, "events_completed": 100000, "listener_calls": 80000,
                        "in_delivery_operations": 8000}}
@@ -63,6 +63,19 @@ class Listener(object):
         self.behaviour = behaviour
         self.arg = arg
         self.done = False
+        # 'eq': a distinct listener object that compares equal to its twin (dataclass-style callables)
+        self.eq_group = name if behaviour == "eq" else None
+
+    def __eq__(self, other):
+        if self.eq_group is not None and getattr(other, "eq_group", None) == self.eq_group:
+            return True
+        return self is other
+
+    def __ne__(self, other):
+        return not self.__eq__(other)
+
+    def __hash__(self):
+        return hash(self.eq_group) if self.eq_group is not None else id(self)
 
     def __call__(self, payload):
         return self.h.on_call(self, payload)
@@ -72,7 +85,7 @@ class Listener(object):
         return self.h.on_call(self, payload)
 
     def cb(self):
-        return self.handle if self.lid % 3 == 1 else self
+        return self.handle if (self.lid % 3 == 1 and self.eq_group is None) else self
 
     def __repr__(self):
         return "<L%d %s %s>" % (self.lid, self.name, self.behaviour)
@@ -88,6 +101,7 @@ class Harness(ctl.Session):
             events.append({"after": e["after"],
                            "bytes": R.encode_event(e["name"], e["form"], self.ev_text(j), e.get("more", ()))})
         ctl.Session.__init__(self, cmds, events=events, chunking=case.get("chunking") or (1 << 30,))
+        self.refuse_setevents = set(case.get("refuse_setevents") or ())
         self.model = {}                 # name -> [Listener] in registration order
         self.expected_setevents = []
         self.calls = []                 # (lid, event index or None, payload, t)
@@ -169,7 +183,7 @@ class Harness(ctl.Session):
             self.self_unsub.add(l.lid)
             self.remove(l)
         elif l.behaviour == "unsub-other":
-            others = [o for o in self.model.get(l.name, []) if o is not l]
+            others = [o for o in self.model.get(l.name, []) if o is not l and o.eq_group is None]
             if others:
                 l.done = True
                 self.in_delivery_ops += 1
@@ -196,7 +210,7 @@ class Harness(ctl.Session):
             if op["op"] == "add":
                 self.add(op["name"], op.get("behaviour", "ok"), op.get("arg", 0))
             else:
-                live = [l for ls in self.model.values() for l in ls]
+                live = [l for ls in self.model.values() for l in ls if l.eq_group is None]
                 if live:
                     self.remove(live[op.get("arg", 0) % len(live)])
 
@@ -344,6 +358,10 @@ def gen_case(rnd, edge=False):
     for n in names:
         for _ in range(rnd.choice([0, 1, 1, 2, 3, 4])):
             initial.append({"name": n, "behaviour": rnd.choice(BEHAVIOURS), "arg": rnd.randint(0, 7)})
+    if rnd.random() < 0.25:
+        # two distinct listener objects that compare equal, both registered for one name (never removed)
+        n = rnd.choice(names)
+        initial += [{"name": n, "behaviour": "eq", "arg": 0}, {"name": n, "behaviour": "eq", "arg": 1}]
     rnd.shuffle(initial)
     events = []
     nev = rnd.choice([1, 2, 3, 4, 6, 8])
@@ -367,7 +385,9 @@ def gen_case(rnd, edge=False):
                         "arg": rnd.randint(0, 7), "at": rnd.randint(0, total)})
         else:
             ops.append({"op": "remove", "arg": rnd.randint(0, 7), "at": rnd.randint(0, total)})
-    return {"cmds": cmds, "events": events, "initial": initial, "ops": ops, "chunking": gen.chunking(rnd)}
+    refuse = sorted({rnd.randint(1, 6) for _ in range(rnd.choice([1, 1, 2]))}) if rnd.random() < 0.2 else []
+    return {"cmds": cmds, "events": events, "initial": initial, "ops": ops, "chunking": gen.chunking(rnd),
+            "refuse_setevents": refuse}
 
 
 def run_case(case, rec):
@@ -391,6 +411,8 @@ def run_case(case, rec):
     rec.count("listener_calls", len(h.calls))
     rec.count("in_delivery_operations", h.in_delivery_ops)
     rec.count("listeners_registered_as_bound_methods", getattr(h, "bound_method_listeners", 0))
+    rec.count("setevents_refused_by_tor", getattr(h, "setevents_refused", 0))
+    rec.count("equal_but_distinct_listener_pairs", sum(1 for l in h.listeners.values() if l.eq_group is not None) // 2)
     for f in h.flags_seen:
         rec.seen("event_form_x_queue_state", f)
     risk = None
